@@ -50,7 +50,10 @@ static void check_case(vg::Src& s, vh::Ctx& c)
                 continue;
             }
             double znew = zi - ei;
-            bool is_limited = vg::biteq(ei, zi - (fl + DBL_MIN));
+            // "limited" is recognised from the output alone: the new elevation sits on the floor
+            // (lowest post-erosion receiver) up to the safety increment of the limiter, whatever
+            // its size (the library uses DBL_MIN; any increment inside the rounding margin is as good)
+            bool at_floor = static_cast<LD>(znew) <= static_cast<LD>(fl) + 64 * eps * (fabsl(static_cast<LD>(zi)) + fabsl(static_cast<LD>(fl))) + 16 * static_cast<LD>(DBL_MIN);
             // terms of the discrete equation
             LD Rres = static_cast<LD>(znew) - zi;
             LD scale = std::fabs(znew) + std::fabs(zi);
@@ -92,13 +95,27 @@ static void check_case(vg::Src& s, vh::Ctx& c)
                     implicit_matters = true;
             }
             std::string at = tag + "node " + std::to_string(i) + " (z=" + vg::fmt(zi) + ", erosion=" + vg::fmt(ei) + ", new=" + vg::fmt(znew) + ", floor=" + vg::fmt(fl) + ", n=" + vg::fmt(sc.n) + ")";
-            if (is_limited)
-            {
+            if (at_floor)
                 ++limited;
+            if (equal_rec)
+            {
+                ++skipped_equal;
+                continue;
+            }
+            // relative rounding (64 eps on the magnitudes, amplified by the derivative of the implicit
+            // term) plus the absolute quantum of subnormal results (elevations near 5e-324 are exact
+            // only up to one subnormal increment, which the implicit term amplifies as well)
+            LD bound = 64 * eps * scale + 16 * 4.9406564584124654e-324L * deriv_sum + (linear ? 0 : static_cast<LD>(tol));
+            bool solves = fabsl(Rres) <= bound;
+            if (solves)
+            {
+                ++checked;
+                continue;
+            }
+            if (at_floor)
+            {
                 // erosion may be limited only when the model says the solution reaches the floor
                 LD margin = 64 * eps * (fabsl(static_cast<LD>(zi)) + fabsl(static_cast<LD>(fl))) + 4 * DBL_MIN;
-                if (equal_rec)
-                    continue;
                 if (linear)
                 {
                     LD zstar = num_lin / (1 + Fsum_lin);
@@ -141,18 +158,7 @@ static void check_case(vg::Src& s, vh::Ctx& c)
                 }
                 continue;
             }
-            if (equal_rec)
-            {
-                ++skipped_equal;
-                continue;
-            }
-            ++checked;
-            // relative rounding (64 eps on the magnitudes, amplified by the derivative of the implicit
-            // term) plus the absolute quantum of subnormal results (elevations near 5e-324 are exact
-            // only up to one subnormal increment, which the implicit term amplifies as well)
-            LD bound = 64 * eps * scale + 16 * 4.9406564584124654e-324L * deriv_sum + (linear ? 0 : static_cast<LD>(tol));
-            if (!(fabsl(Rres) <= bound))
-                c.fail(linear ? "linear-residual" : "newton-residual",
+            c.fail(linear ? "linear-residual" : "newton-residual",
                        at + ": residual of the backward-Euler equation " + vg::fmt(static_cast<double>(Rres)) + " exceeds " + vg::fmt(static_cast<double>(bound)) + (linear ? " (rounding)" : " (tolerance " + vg::fmt(tol) + " + rounding)"));
         }
         limited_total += limited;
